@@ -67,7 +67,7 @@ func (g *c07Gen) template(k int, m *c07Macro) *sx.N {
 	var t *sx.N
 	choice := g.r.Intn(15)
 	if m.rest {
-		choice = 100 + g.r.Intn(7)
+		choice = 100 + g.r.Intn(10)
 	}
 	switch choice {
 	case 0:
@@ -162,6 +162,24 @@ func (g *c07Gen) template(k int, m *c07Macro) *sx.N {
 	case 103:
 		g.feat["tmpl:progn-body"] = true
 		t = sx.Call("progn", uq(p(1)), uqs(sx.Y("body")))
+	case 107, 108, 109:
+		if len(g.macros) > 0 {
+			// a front-end macro that hands its whole &rest list, UNSPLICED, to another
+			// macro (a chain of at least two expansion steps)
+			g.feat["tmpl:rest-list-passed-to-macro"] = true
+			o := g.macros[g.r.Intn(len(g.macros))]
+			args := []*sx.N{uq(sx.Y("body"))}
+			for i := 1; i < o.req; i++ {
+				args = append(args, uq(p(1+i%m.req)))
+			}
+			if o.rest {
+				args = append(args, uq(sx.Call("cdr", sx.Y("body"))), sx.I(int64(g.r.Intn(9))))
+			}
+			t = sx.Call(o.name, args...)
+			break
+		}
+		g.feat["tmpl:splice-in-nested"] = true
+		t = sx.Call("list", sx.Call("list", uqs(sx.Y("body"))), sx.Call("length", sx.Q(sx.L(uqs(sx.Y("body"))))))
 	case 105:
 		g.feat["tmpl:splice-under-two-quotes"] = true
 		t = sx.Call("list", sx.Q(sx.Q(sx.L(sx.I(1), uqs(sx.Y("body")), sx.I(4)))), uq(p(1)))
